@@ -265,10 +265,64 @@ def rule_r5_ambient(ctx: Ctx) -> None:
     ambient.rule(ctx, "C15.R5", "a relative or bare root designation means the directory it names *now*; an answer kept from an earlier call (another working directory, another state of the file system) maps the file to another root and so to another name")
 
 
+def rule_r6_designations(ctx: Ctx) -> None:
+    """`for read_files the mapping is the same however the root is designated`: read_files is evaluated end to end (only the
+    reading of one file stubbed, reader_common.run_entry) over an abstract file system with a working directory, and the same
+    file is requested through every designation the documentation offers - absolute target and absolute root, relative target
+    with an absolute root, relative target and relative root, a bare root-namespace name, no root at all (inferred from the
+    relative target), a bare name with an absolute target, and the same again from another working directory for the absolute
+    forms.  The definition that gets read must be the same file with the same full name, version, port-ID and root."""
+    from ..absint import APath
+    from . import reader_common as R
+
+    ctx.rule("C15.R6", "read_files evaluated end to end over an abstract file system with a working directory: the file requested is mapped to the same full name, version, port-ID and root namespace directory however target and root are designated (absolute / relative paths, bare name, no root), and a file outside every designated root is rejected [bounded grid of designations]", min_instances=2)
+    files = {"/w/ns/sub/Foo.1.0.dsdl": [], "/w/ns/sub/7509.Bar.2.3.dsdl": [], "/w/ns/Top.0.1.dsdl": [], "/w/other/ns/sub/Foo.1.0.dsdl": [], "/w/other/Z.1.0.dsdl": []}
+    P = APath
+    fn = ctx.func("_namespace.read_files")
+    want = {
+        "Foo": {"file": "/w/ns/sub/Foo.1.0.dsdl", "full_name": "ns.sub.Foo", "version": (1, 0), "fixed_port_id": None, "root_namespace": "ns", "root_namespace_path": "/w/ns"},
+        "Bar": {"file": "/w/ns/sub/7509.Bar.2.3.dsdl", "full_name": "ns.sub.Bar", "version": (2, 3), "fixed_port_id": 7509, "root_namespace": "ns", "root_namespace_path": "/w/ns"},
+        "Top": {"file": "/w/ns/Top.0.1.dsdl", "full_name": "ns.Top", "version": (0, 1), "fixed_port_id": None, "root_namespace": "ns", "root_namespace_path": "/w/ns"},
+    }
+    rel = {"Foo": "ns/sub/Foo.1.0.dsdl", "Bar": "ns/sub/7509.Bar.2.3.dsdl", "Top": "ns/Top.0.1.dsdl"}
+    designations = [
+        # (label, working directory, target spelling, roots)
+        ("absolute target, absolute root", "/w", "abs", [P("/w/ns")]),
+        ("absolute target, absolute root, other working directory", "/elsewhere", "abs", [P("/w/ns")]),
+        ("relative target, absolute root", "/w", "rel", [P("/w/ns")]),
+        ("relative target, relative root", "/w", "rel", [P("ns")]),
+        ("relative target, bare root name", "/w", "rel", ["ns"]),
+        ("relative target, no root (inferred)", "/w", "rel", []),
+        ("absolute target, bare root name", "/w", "abs", ["ns"]),
+        ("absolute target, root listed after another root", "/w", "abs", [P("/w/other"), P("/w/ns")]),
+        ("relative target, root given with a trailing dot segment", "/w", "rel", [P("/w/./ns")]),
+    ]
+    for key in ("Foo", "Bar", "Top"):
+        bad = []
+        for label, cwd, how, roots in designations:
+            target = P(want[key]["file"]) if how == "abs" else P(rel[key])
+            r = R.run_entry(ctx, "read_files", [[target], list(roots), []], files, cwd=cwd)
+            ctx.count()
+            got = r.identities[0] if r.identities else None
+            if r.raised or got is None or len(r.identities) != 1 or any(got.get(k) != v for k, v in want[key].items()):
+                bad.append({"designation": label, "outcome": r.raised or "a result", "read": got, "expected": want[key]})
+        ctx.check(not bad, fn.short, "%s through %d designations" % (want[key]["file"], len(designations)), "name, version, port-ID and root of a file do not depend on how target and root are designated", fn.where(), bad[:3])
+    # a target that lies under none of the designated roots is rejected, not attributed to some root
+    bad = []
+    for label, cwd, target, roots in (("absolute target outside the root", "/w", P("/w/other/Z.1.0.dsdl"), [P("/w/ns")]), ("absolute target, no root", "/w", P("/w/ns/Top.0.1.dsdl"), [])):
+        r = R.run_entry(ctx, "read_files", [[target], list(roots), []], files, cwd=cwd)
+        ctx.count()
+        k = next((k for k in ctx.repo.all_classes().values() if k.name == r.raised), None) if r.raised else None
+        if k is None or not ctx.repo.is_subclass(k, ctx.cls("_error.InvalidDefinitionError")):
+            bad.append({"designation": label, "outcome": r.raised or "a result", "read": r.identities[:1]})
+    ctx.check(not bad, fn.short, "targets under no designated root", "a file whose root cannot be established is rejected with an InvalidDefinitionError", fn.where(), bad)
+
+
 def run(ctx: Ctx) -> None:
     ctx.attempt(rule_r1, ctx)
     ctx.attempt(rule_r2, ctx)
     ctx.attempt(rule_r3, ctx)
     ctx.attempt(rule_r4, ctx)
     ctx.attempt(rule_r5_ambient, ctx)
+    ctx.attempt(rule_r6_designations, ctx)
     ctx.undecided("equivalence of the four root-inference strategies for all argument spellings: file-system and working-directory dependent behaviour with no static abstraction in reach (only the order-independence of the bare-name strategy is decided)")
